@@ -242,6 +242,19 @@ def gen_history(rng):
             for kind in rng.sample(["plain", "named", "kwargs", "sig"], 2):
                 variants.append(spec_of_call(c, rng, fkind=kind, fpos=i))
         variants.append(corrupt(spec_of_call(c, rng), rng))
+        if "[" in c.desc and "->" in c.desc and c.family in ("reduce", "dot"):
+            # the same call written without brackets (einx places them), followed by other operations on that very text
+            bare = c.desc.replace("[", "").replace("]", "")
+            sp = spec_of_call(c, rng)
+            sp["desc"] = bare
+            variants.append(sp)
+            for other in rng.sample(["flip", "softmax", "sort", "roll", "id", "sum", "max", "set_at"], 3):
+                sp2 = spec_of_call(c, rng)
+                sp2["desc"], sp2["fn"] = bare, other
+                if other == "roll":
+                    sp2["kwargs"]["shift"] = ("int", 1)
+                variants.append(sp2)
+            variants.append(dict(sp))
         # the same description text and arguments handed to other operations (mostly invalid for them): what one operation did
         # with a description must not change what another makes of it
         for other in rng.sample(["id", "sum", "max", "mean", "flip", "softmax", "sort", "add", "multiply", "dot", "argmax", "get_at", "set_at", "roll"], 2):
